@@ -16,13 +16,13 @@ theorem scanFrom_append (a b : List Char) (sc : Scan) :
     | none => rfl
     | some s' => exact ih s'
 
-theorem plain_normal (d : Nat) (c : Char) (h : isPlainChar c = true) :
+theorem plain_normal (d : List Br) (c : Char) (h : isPlainChar c = true) :
     scanNormal d c = some ⟨.normal, d⟩ := by
   simp only [isPlainChar, Bool.not_eq_true', Bool.or_eq_false_iff, decide_eq_false_iff_not] at h
   obtain ⟨⟨⟨⟨⟨⟨⟨⟨⟨h1, h2⟩, h3⟩, h4⟩, h5⟩, h6⟩, h7⟩, h8⟩, h9⟩, h10⟩ := h
   simp [scanNormal, h1, h2, h3, h4, h5, h6, h7, h8, h9, h10]
 
-theorem plain_step (m : SMode) (d : Nat) (c : Char) (hm : closedMode m = true) (h : isPlainChar c = true) :
+theorem plain_step (m : SMode) (d : List Br) (c : Char) (hm : closedMode m = true) (h : isPlainChar c = true) :
     scanStep ⟨m, d⟩ c = some ⟨.normal, d⟩ := by
   have hq : c ≠ '"' ∧ c ≠ '\'' := by
     simp only [isPlainChar, Bool.not_eq_true', Bool.or_eq_false_iff, decide_eq_false_iff_not] at h
@@ -30,7 +30,7 @@ theorem plain_step (m : SMode) (d : Nat) (c : Char) (hm : closedMode m = true) (
   cases m <;> simp [closedMode] at hm <;> simp [scanStep, hq.1, hq.2, plain_normal d c h]
 
 /-- plain text keeps the scanner outside literals, at the same depth -/
-theorem plain_text (t : List Char) (m : SMode) (d : Nat) (hm : closedMode m = true)
+theorem plain_text (t : List Char) (m : SMode) (d : List Br) (hm : closedMode m = true)
     (h : plainText t = true) : ∃ m', scanFrom ⟨m, d⟩ t = some ⟨m', d⟩ ∧ closedMode m' = true := by
   induction t generalizing m with
   | nil => exact ⟨m, rfl, hm⟩
@@ -41,7 +41,7 @@ theorem plain_text (t : List Char) (m : SMode) (d : Nat) (hm : closedMode m = tr
 
 /-! ### string literals and quoted names -/
 
-theorem scan_dbl (s : List Char) (d : Nat) : scanFrom ⟨.str, d⟩ (dbl s) = some ⟨.str, d⟩ := by
+theorem scan_dbl (s : List Char) (d : List Br) : scanFrom ⟨.str, d⟩ (dbl s) = some ⟨.str, d⟩ := by
   induction s with
   | nil => rfl
   | cons c r ih =>
@@ -56,14 +56,14 @@ theorem scan_dbl (s : List Char) (d : Nat) : scanFrom ⟨.str, d⟩ (dbl s) = so
       simp only [scanFrom, scanStep, hc, if_false]
       exact ih
 
-theorem scan_str (s : List Char) (d : Nat) :
+theorem scan_str (s : List Char) (d : List Br) :
     scanFrom ⟨.normal, d⟩ ('"' :: (dbl s ++ ['"'])) = some ⟨.strQ, d⟩ := by
   have h1 : scanStep ⟨.normal, d⟩ '"' = some ⟨.str, d⟩ := by simp [scanStep, scanNormal]
   simp only [scanFrom, h1]
   rw [scanFrom_append, scan_dbl]
   simp [scanFrom, scanStep]
 
-theorem scan_apos (s : List Char) (d : Nat) : scanFrom ⟨.path, d⟩ (replaceApos s) = some ⟨.path, d⟩ := by
+theorem scan_apos (s : List Char) (d : List Br) : scanFrom ⟨.path, d⟩ (replaceApos s) = some ⟨.path, d⟩ := by
   induction s with
   | nil => rfl
   | cons c r ih =>
@@ -78,14 +78,14 @@ theorem scan_apos (s : List Char) (d : Nat) : scanFrom ⟨.path, d⟩ (replaceAp
       simp only [scanFrom, scanStep, hc, if_false]
       exact ih
 
-theorem scan_quoted_qual (name : List Char) (d : Nat) :
+theorem scan_quoted_qual (name : List Char) (d : List Br) :
     scanFrom ⟨.normal, d⟩ ('\'' :: (replaceApos name ++ ['\'', '!'])) = some ⟨.normal, d⟩ := by
   have h1 : scanStep ⟨.normal, d⟩ '\'' = some ⟨.path, d⟩ := by simp [scanStep, scanNormal]
   simp only [scanFrom, h1]
   rw [scanFrom_append, scan_apos]
   simp [scanFrom, scanStep, scanNormal]
 
-theorem scan_err (e : ErrLit) (d : Nat) : scanFrom ⟨.normal, d⟩ e.text = some ⟨.normal, d⟩ := by
+theorem scan_err (e : ErrLit) (d : List Br) : scanFrom ⟨.normal, d⟩ e.text = some ⟨.normal, d⟩ := by
   cases e <;> rfl
 
 /-! ### references -/
@@ -138,7 +138,7 @@ theorem plain_area (a : Area) : plainText a.text = true := by
     rw [this]
     exact plain_append _ _ (by decide) (plain_corner b)
 
-theorem scan_ref (r : CRef) (d : Nat)
+theorem scan_ref (r : CRef) (d : List Br)
     (hq : ∀ q, r.sheet = some q → q.quoted = false → plainText q.name = true) :
     ∃ m', scanFrom ⟨.normal, d⟩ r.text = some ⟨m', d⟩ ∧ closedMode m' = true := by
   obtain ⟨sheet, area⟩ := r
@@ -161,23 +161,23 @@ theorem scan_ref (r : CRef) (d : Nat)
 
 /-! ### composite expressions -/
 
-def Good (d : Nat) (t : List Char) : Prop :=
+def Good (d : List Br) (t : List Char) : Prop :=
   ∃ m, scanFrom ⟨.normal, d⟩ t = some ⟨m, d⟩ ∧ closedMode m = true
 
-theorem open_step (m : SMode) (d : Nat) (hm : closedMode m = true) :
-    scanStep ⟨m, d⟩ '(' = some ⟨.normal, d + 1⟩ := by
+theorem open_step (m : SMode) (d : List Br) (hm : closedMode m = true) :
+    scanStep ⟨m, d⟩ '(' = some ⟨.normal, .paren :: d⟩ := by
   cases m <;> simp [closedMode] at hm <;> simp [scanStep, scanNormal]
 
-theorem close_step (m : SMode) (d : Nat) (hm : closedMode m = true) :
-    scanStep ⟨m, d + 1⟩ ')' = some ⟨.normal, d⟩ := by
+theorem close_step (m : SMode) (d : List Br) (hm : closedMode m = true) :
+    scanStep ⟨m, .paren :: d⟩ ')' = some ⟨.normal, d⟩ := by
   cases m <;> simp [closedMode] at hm <;> simp [scanStep, scanNormal]
 
-theorem comma_step (m : SMode) (d : Nat) (hm : closedMode m = true) :
-    scanStep ⟨m, d + 1⟩ ',' = some ⟨.normal, d + 1⟩ := by
+theorem comma_step (m : SMode) (d : List Br) (hm : closedMode m = true) :
+    scanStep ⟨m, .paren :: d⟩ ',' = some ⟨.normal, .paren :: d⟩ := by
   cases m <;> simp [closedMode] at hm <;> simp [scanStep, scanNormal]
 
 /-- `a`, a plain separator character, `b` -/
-theorem good_sep (d : Nat) (a b : List Char) (c : Char) (hc : isPlainChar c = true)
+theorem good_sep (d : List Br) (a b : List Char) (c : Char) (hc : isPlainChar c = true)
     (ha : Good d a) (hb : Good d b) : Good d (a ++ c :: b) := by
   obtain ⟨m, h1, h2⟩ := ha
   unfold Good
@@ -185,16 +185,16 @@ theorem good_sep (d : Nat) (a b : List Char) (c : Char) (hc : isPlainChar c = tr
   simp only [scanFrom, plain_step m d c h2 hc]
   exact hb
 
-theorem good_prefix (d : Nat) (b : List Char) (c : Char) (hc : isPlainChar c = true) (hb : Good d b) :
+theorem good_prefix (d : List Br) (b : List Char) (c : Char) (hc : isPlainChar c = true) (hb : Good d b) :
     Good d (c :: b) := by
   have := good_sep d [] b c hc ⟨.normal, rfl, rfl⟩ hb
   simpa using this
 
-theorem good_suffix (d : Nat) (a : List Char) (c : Char) (hc : isPlainChar c = true) (ha : Good d a) :
+theorem good_suffix (d : List Br) (a : List Char) (c : Char) (hc : isPlainChar c = true) (ha : Good d a) :
     Good d (a ++ [c]) :=
   good_sep d a [] c hc ha ⟨.normal, rfl, rfl⟩
 
-theorem good_plain_prefix (d : Nat) (t b : List Char) (ht : plainText t = true) (hb : Good d b) :
+theorem good_plain_prefix (d : List Br) (t b : List Char) (ht : plainText t = true) (hb : Good d b) :
     Good d (t ++ b) := by
   induction t with
   | nil => exact hb
@@ -203,7 +203,7 @@ theorem good_plain_prefix (d : Nat) (t b : List Char) (ht : plainText t = true) 
     exact good_prefix d _ c ht.1 (ih ht.2)
 
 /-- `( inner )` where `inner` is good one level deeper -/
-theorem good_parens (d : Nat) (inner : List Char) (hi : Good (d + 1) inner) :
+theorem good_parens (d : List Br) (inner : List Char) (hi : Good (.paren :: d) inner) :
     ∀ m, closedMode m = true →
       ∃ m', scanFrom ⟨m, d⟩ ('(' :: (inner ++ [')'])) = some ⟨m', d⟩ ∧ closedMode m' = true := by
   intro m hm
@@ -216,8 +216,83 @@ theorem good_parens (d : Nat) (inner : List Char) (hi : Good (d + 1) inner) :
 theorem binop_text (op : BinOp) : ∃ c rest, op.text = c :: rest ∧ isPlainChar c = true ∧ plainText rest = true := by
   cases op <;> exact ⟨_, _, rfl, by decide, by decide⟩
 
+/-! ### array constants -/
+
+theorem lbrace_step (m : SMode) (d : List Br) (hm : closedMode m = true) :
+    scanStep ⟨m, d⟩ '{' = some ⟨.normal, .brace :: d⟩ := by
+  cases m <;> simp [closedMode] at hm <;> simp [scanStep, scanNormal]
+
+theorem rbrace_step (m : SMode) (d : List Br) (hm : closedMode m = true) :
+    scanStep ⟨m, .brace :: d⟩ '}' = some ⟨.normal, d⟩ := by
+  cases m <;> simp [closedMode] at hm <;> simp [scanStep, scanNormal]
+
+theorem semi_step (m : SMode) (d : List Br) (hm : closedMode m = true) :
+    scanStep ⟨m, .brace :: d⟩ ';' = some ⟨.normal, .brace :: d⟩ := by
+  cases m <;> simp [closedMode] at hm <;> simp [scanStep, scanNormal]
+
+theorem comma_step' (m : SMode) (b : Br) (d : List Br) (hm : closedMode m = true) :
+    scanStep ⟨m, b :: d⟩ ',' = some ⟨.normal, b :: d⟩ := by
+  cases m <;> simp [closedMode] at hm <;> simp [scanStep, scanNormal]
+
+theorem scan_const (c : Const) (h : c.Lexical) (d : List Br) : Good d c.print := by
+  cases c with
+  | num neg t =>
+    cases neg with
+    | false =>
+      have : Good d t := plain_text t .normal d rfl h
+      simpa [Const.print] using this
+    | true =>
+      have := good_prefix d t '-' (by decide) (plain_text t .normal d rfl h)
+      simpa [Const.print] using this
+  | str s => exact ⟨.strQ, scan_str s d, rfl⟩
+  | bool b => cases b <;> exact ⟨.normal, rfl, rfl⟩
+  | err e => exact ⟨.normal, scan_err e d, rfl⟩
+
+theorem scan_row (r : List Const) (h : ∀ c ∈ r, c.Lexical) (d : List Br) : Good (.brace :: d) (printRow r) := by
+  induction r with
+  | nil => exact ⟨.normal, rfl, rfl⟩
+  | cons c rest ih =>
+    have hc := scan_const c (h c (List.mem_cons_self ..)) (.brace :: d)
+    cases rest with
+    | nil => simpa [printRow] using hc
+    | cons c2 rest2 =>
+      have hr := ih (fun x hx => h x (List.mem_cons_of_mem _ hx))
+      obtain ⟨m, hm1, hm2⟩ := hc
+      unfold Good
+      simp only [printRow]
+      rw [scanFrom_append, hm1]
+      simp only [scanFrom, comma_step' m .brace d hm2]
+      exact hr
+
+theorem scan_rows (rows : List (List Const)) (h : ∀ r ∈ rows, ∀ c ∈ r, c.Lexical) (d : List Br) :
+    Good (.brace :: d) (printRows rows) := by
+  induction rows with
+  | nil => exact ⟨.normal, rfl, rfl⟩
+  | cons r rest ih =>
+    have hr := scan_row r (h r (List.mem_cons_self ..)) d
+    cases rest with
+    | nil => simpa [printRows] using hr
+    | cons r2 rest2 =>
+      have hrest := ih (fun x hx => h x (List.mem_cons_of_mem _ hx))
+      obtain ⟨m, hm1, hm2⟩ := hr
+      unfold Good
+      simp only [printRows]
+      rw [scanFrom_append, hm1]
+      simp only [scanFrom, semi_step m d hm2]
+      exact hrest
+
+/-- `{ rows }` -/
+theorem scan_array (rows : List (List Const)) (h : ∀ r ∈ rows, ∀ c ∈ r, c.Lexical) (d : List Br) :
+    Good d ('{' :: (printRows rows ++ ['}'])) := by
+  obtain ⟨mi, h1, h2⟩ := scan_rows rows h d
+  unfold Good
+  simp only [scanFrom, lbrace_step .normal d rfl]
+  rw [scanFrom_append, h1]
+  simp only [scanFrom, rbrace_step mi d h2]
+  exact ⟨.normal, rfl, rfl⟩
+
 mutual
-  theorem scan_expr (e : Expr) (h : e.Lexical) (d : Nat) : Good d e.print := by
+  theorem scan_expr (e : Expr) (h : e.Lexical) (d : List Br) : Good d e.print := by
     match e, h with
     | .num t, h => exact plain_text t .normal d rfl h
     | .str s, _ => exact ⟨.strQ, scan_str s d, rfl⟩
@@ -226,6 +301,7 @@ mutual
     | .name n, h => exact plain_text n .normal d rfl h
     | .ref r, h => exact scan_ref r d h.2
     | .opaque _, h => exact absurd h (by simp [Expr.Lexical])
+    | .array rows, h => exact scan_array rows h d
     | .neg e, h => exact good_prefix d _ '-' (by decide) (scan_expr e h d)
     | .pos e, h => exact good_prefix d _ '+' (by decide) (scan_expr e h d)
     | .pct e, h => exact good_suffix d _ '%' (by decide) (scan_expr e h d)
@@ -237,7 +313,7 @@ mutual
       simpa [Expr.print, hop] using this
     | .isect a b, h => exact good_sep d _ _ ' ' (by decide) (scan_expr a h.1 d) (scan_expr b h.2 d)
     | .union es, h => exact good_parens d _ (scan_args es h d) .normal rfl
-    | .paren e, h => exact good_parens d _ (scan_expr e h (d + 1)) .normal rfl
+    | .paren e, h => exact good_parens d _ (scan_expr e h (.paren :: d)) .normal rfl
     | .call f as, h =>
       obtain ⟨m, h1, h2⟩ := plain_text f .normal d rfl h.1
       have := good_parens d _ (scan_args as h.2 d) m h2
@@ -245,12 +321,12 @@ mutual
       simp only [Expr.print]
       rw [scanFrom_append, h1]
       exact this
-  theorem scan_args (as : Args) (h : as.Lexical) (d : Nat) : Good (d + 1) as.print := by
+  theorem scan_args (as : Args) (h : as.Lexical) (d : List Br) : Good (.paren :: d) as.print := by
     match as, h with
     | .nil, _ => exact ⟨.normal, rfl, rfl⟩
-    | .cons e .nil, h => simpa [Args.print] using scan_expr e h.1 (d + 1)
+    | .cons e .nil, h => simpa [Args.print] using scan_expr e h.1 (.paren :: d)
     | .cons e (.cons e2 r), h =>
-      have h1 := scan_expr e h.1 (d + 1)
+      have h1 := scan_expr e h.1 (.paren :: d)
       have h2 := scan_args (.cons e2 r) h.2 d
       obtain ⟨m, hm1, hm2⟩ := h1
       unfold Good
@@ -259,7 +335,7 @@ mutual
       simp only [scanFrom, comma_step m d hm2]
       exact h2
     | .cons e (.skip r), h =>
-      have h1 := scan_expr e h.1 (d + 1)
+      have h1 := scan_expr e h.1 (.paren :: d)
       have h2 := scan_args (.skip r) h.2 d
       obtain ⟨m, hm1, hm2⟩ := h1
       unfold Good
